@@ -85,4 +85,5 @@ def warm_quick():
   runs.append(('NnxRng', 'NnxRng_mc.cfg', dict(workers=8, timeout=900)))
   runs.append(('NnxGraph', 'NnxGraph_mc.cfg', dict(workers=16, timeout=3000)))
   runs.append(('NnxGraph', 'NnxGraph_small.cfg', dict(workers=1, timeout=3000)))
+  runs.append(('NnxGraph', 'NnxGraph_tied.cfg', dict(workers=1, timeout=3000)))
   return runs
